@@ -1,5 +1,5 @@
 (* Case evaluator for the C08 correspondence shards. *)
-From GL Require Import Common.Bytes Front.Lines Front.Lexer Front.Render.
+From GL Require Import Common.Bytes Front.Lines Front.Lexer Front.Render Front.Ast Front.Parser Front.Printer.
 Open Scope Z_scope.
 
 (* what the harness saw when it drove parse.Scanner.Scan to EOF / first error: (type, text, line) *)
@@ -21,7 +21,12 @@ Inductive case :=
 (* arbitrary bytes *)
 | CBytes (src : bytes) (obs : lexobs) (load : Z)
 (* a check decided on the Go side only (adversarial sizes, crashes): ok = it passed *)
-| CGoSide (ok : bool).
+| CGoSide (ok : bool)
+(* token-level mutation of a valid program: did gopher-lua's parse stage (parse.Parse) accept it? *)
+| CParse (src : bytes) (gopher_accepts : bool)
+(* one generated program: its canonical lexemes (A) and the variant with optional ";" and
+   redundant parentheses (B), and "the reference AST printed back compiles to the same bytecode" *)
+| CProg (a b : list lexeme) (printback_same : bool).
 
 (* sum of (i+1) * byte_i modulo 65521: ties the harness's printer to Render.render cheaply *)
 Fixpoint checksum (s : bytes) (i acc : Z) : Z :=
@@ -68,6 +73,34 @@ Definition model_agrees (src : bytes) (obs : lexobs) : bool :=
 Definition obs_is_err (o : lexobs) : bool := match o with ObsErr _ _ _ _ => true | _ => false end.
 Definition obs_toks (o : lexobs) : list otok := match o with ObsOk l => l | ObsErr l _ _ _ => l end.
 
+(* ---------- reference parser ---------- *)
+
+Definition ref_accepts_toks_d (d : dialect) (t : list token) : bool :=
+  match parse_d d (ptoks_of t) with ParseOk _ => true | _ => false end.
+Definition ref_accepts_toks := ref_accepts_toks_d strict.
+
+(* a lexical error is a syntax error *)
+Definition ref_accepts_d (d : dialect) (src : bytes) : bool :=
+  match lex src with LexOk t => ref_accepts_toks_d d t | _ => false end.
+
+Definition ptok_eqb (x y : ptok) : bool := (pty x =? pty y) && beqb (ptext x) (ptext y).
+
+(* lexemes on one line, as the parser sees them *)
+Definition ptoks_of_lexemes (l : list lexeme) : list ptok :=
+  map (fun x => (lexeme_type x, lexeme_text x, false)) l.
+
+(* both streams parse, to trees that print alike, and printing + parsing again is the identity *)
+Definition prog_ok (a b : list lexeme) : bool :=
+  match parse (ptoks_of_lexemes a), parse (ptoks_of_lexemes b) with
+  | ParseOk ta, ParseOk tb =>
+    list_eqb ptok_eqb (print ta) (print tb)
+    && match parse (print ta) with
+       | ParseOk ta' => list_eqb ptok_eqb (print ta') (print ta)
+       | _ => false
+       end
+  | _, _ => false
+  end.
+
 (* the impl model's prediction: its token stream / error, and "the lexer rejects => syntax error" *)
 Definition check_impl (c : case) : bool :=
   match c with
@@ -78,6 +111,8 @@ Definition check_impl (c : case) : bool :=
     model_agrees src obs
     && (match lex src with LexErr _ _ => load =? LoadSyntax | _ => true end)
   | CGoSide _ => true
+  | CParse src g => Bool.eqb (ref_accepts_d gopher src) g   (* the model of what parse.Parse accepts *)
+  | CProg _ _ _ => true
   end.
 
 (* observed lines against the reference rule, at the model's token offsets *)
@@ -99,9 +134,12 @@ Definition check_spec (c : case) : bool :=
     && lexobs_eqb (ObsOk (map otok_of (expected_tokens items trailer))) obs
     && (load =? LoadFunction)
     && same_code
+    && ref_accepts_toks (expected_tokens items trailer)
   | CBytes src obs load =>
     ((load =? LoadFunction) || (load =? LoadSyntax))
     && (if obs_is_err obs then load =? LoadSyntax else true)
     && lines_ok src (model_toks (lex src)) (obs_toks obs)
   | CGoSide ok => ok
+  | CParse src g => Bool.eqb (ref_accepts_d strict src) g       (* Lua 5.1, both directions *)
+  | CProg a b same => prog_ok a b && same
   end.
